@@ -11,7 +11,7 @@ use serde::{Deserialize, Serialize};
 
 use crate::client::no_proxy;
 use crate::engine::{Ctx, Outcome, Property, Tier};
-use crate::peers::{proc_counts, script_server, Step};
+use crate::peers::{proc_counts, script_server, tunnel_script_server, Step};
 
 #[derive(Debug, Clone, Copy, Serialize, Deserialize, PartialEq, Eq, Hash)]
 pub enum StallPoint {
@@ -48,6 +48,9 @@ pub struct Case {
     pub reads: Vec<u16>,
     /// schedule perturbation: delay (ms) injected at labelled points of the timeout machinery
     pub sched: Vec<(u8, u8)>,
+    /// route: false = plain http, true = https through a CONNECT tunnel (TLS to the harness's rustls peer)
+    #[serde(default)]
+    pub tunnel: bool,
 }
 
 pub struct C13;
@@ -130,9 +133,13 @@ fn install_sched(sched: &[(u8, u8)]) {
 }
 
 
-fn client_part(case: &Case, url: &str, upload: bool, t0: Instant, obs: &mut Observed) {
+fn client_part(case: &Case, url: &str, upload: bool, t0: Instant, obs: &mut Observed, proxy_port: Option<u16>) {
     {
-        let mut rb = attohttpc::post(url).proxy_settings(no_proxy()).read_timeout(Duration::from_millis(case.r_ms as u64)).connect_timeout(Duration::from_secs(5)).max_redirections(100);
+        let proxy = match proxy_port {
+            Some(p) => attohttpc::ProxySettings::builder().https_proxy(url::Url::parse(&format!("http://127.0.0.1:{p}")).unwrap()).build(),
+            None => no_proxy(),
+        };
+        let mut rb = attohttpc::post(url).proxy_settings(proxy).danger_accept_invalid_certs(true).read_timeout(Duration::from_millis(case.r_ms as u64)).connect_timeout(Duration::from_secs(5)).max_redirections(100);
         if case.t_ms > 0 {
             rb = rb.timeout(Duration::from_millis(case.t_ms as u64));
         }
@@ -232,9 +239,11 @@ fn run_once(case: &Case) -> Result<Observed, String> {
             (vec![s], false)
         }
     };
-    let mut server = script_server(scripts).map_err(|e| format!("server: {e}"))?;
+    let tunnel = case.tunnel && scripts.len() == 1 && !upload;
+    let mut server = if tunnel { tunnel_script_server("good", scripts.into_iter().next().unwrap()) } else { script_server(scripts) }.map_err(|e| format!("server: {e}"))?;
     install_sched(&case.sched);
-    let url = format!("http://127.0.0.1:{}/x", server.addr.port());
+    let proxy_port = server.addr.port();
+    let url = if tunnel { "https://127.0.0.1:4443/x".to_string() } else { format!("http://127.0.0.1:{}/x", server.addr.port()) };
     let t0 = Instant::now();
     let case2 = case.clone();
     let (tx, rx) = std::sync::mpsc::channel();
@@ -252,7 +261,7 @@ fn run_once(case: &Case) -> Result<Observed, String> {
             eof_at_ms: None,
             hung: false,
         };
-        client_part(case, &url, upload, t0, &mut obs);
+        client_part(case, &url, upload, t0, &mut obs, if tunnel { Some(proxy_port) } else { None });
         let _ = tx.send(obs);
     });
     // the property itself bounds the duration of every call: a client that is still busy long after both timeouts is
@@ -307,7 +316,7 @@ labelled points of the watchdog / reader (verif-hooks H3). Oracle S1-S4. non-tri
             "under an injected schedule perturbation only the schedule-independent assertions are made: a stalled response is never reported complete, a completed one never as timed out".into(),
             "a response that completed before T but whose end is first observed within 50 ms of T (or later) is accepted either way".into(),
             "only the six labelled points are under the harness's control, not preemption inside std; 'promptly' is operationalised as 300 ms".into(),
-            "the CONNECT-tunnel route is exercised for timeouts only through the plain-socket layer it shares (the tunnel's inner stream is the same BaseStream::Plain with the same watchdog)".into(),
+            "tunnelled cases use a real CONNECT proxy thread that continues as a rustls server; the upload stall and redirect chains are driven on the plain route only".into(),
         ]
     }
 
@@ -343,24 +352,32 @@ labelled points of the watchdog / reader (verif-hooks H3). Oracle S1-S4. non-tri
             StallPoint::InCloseBody,
         ];
         for p in points {
-            v.push(Case { scenario: Scenario::Stall { point: p, drip_ms: 0 }, t_ms: 250, r_ms: 5000, reads: vec![4096], sched: vec![] });
+            v.push(Case { scenario: Scenario::Stall { point: p, drip_ms: 0 }, t_ms: 250, r_ms: 5000, reads: vec![4096], sched: vec![], tunnel: false });
             if p != StallPoint::Upload {
-                v.push(Case { scenario: Scenario::Stall { point: p, drip_ms: 30 }, t_ms: 300, r_ms: 150, reads: vec![1, 100], sched: vec![] });
-                v.push(Case { scenario: Scenario::Stall { point: p, drip_ms: 0 }, t_ms: 0, r_ms: 150, reads: vec![512], sched: vec![] });
+                v.push(Case { scenario: Scenario::Stall { point: p, drip_ms: 30 }, t_ms: 300, r_ms: 150, reads: vec![1, 100], sched: vec![], tunnel: false });
+                v.push(Case { scenario: Scenario::Stall { point: p, drip_ms: 0 }, t_ms: 0, r_ms: 150, reads: vec![512], sched: vec![], tunnel: false });
             }
         }
         for framing in 0..3u8 {
-            v.push(Case { scenario: Scenario::Complete { framing, payload: 500, extra_reads: vec![(10, 0), (10, 0)] }, t_ms: 300, r_ms: 5000, reads: vec![4096], sched: vec![] });
-            v.push(Case { scenario: Scenario::Complete { framing, payload: 500, extra_reads: vec![(10, 0), (10, 400), (1, 0)] }, t_ms: 250, r_ms: 5000, reads: vec![100], sched: vec![] });
-            v.push(Case { scenario: Scenario::Complete { framing, payload: 0, extra_reads: vec![(64, 350)] }, t_ms: 200, r_ms: 5000, reads: vec![4096], sched: vec![] });
+            v.push(Case { scenario: Scenario::Complete { framing, payload: 500, extra_reads: vec![(10, 0), (10, 0)] }, t_ms: 300, r_ms: 5000, reads: vec![4096], sched: vec![], tunnel: false });
+            v.push(Case { scenario: Scenario::Complete { framing, payload: 500, extra_reads: vec![(10, 0), (10, 400), (1, 0)] }, t_ms: 250, r_ms: 5000, reads: vec![100], sched: vec![], tunnel: false });
+            v.push(Case { scenario: Scenario::Complete { framing, payload: 0, extra_reads: vec![(64, 350)] }, t_ms: 200, r_ms: 5000, reads: vec![4096], sched: vec![], tunnel: false });
         }
-        v.push(Case { scenario: Scenario::SlowChain { delay_ms: 80 }, t_ms: 300, r_ms: 5000, reads: vec![4096], sched: vec![] });
-        v.push(Case { scenario: Scenario::SlowChain { delay_ms: 120 }, t_ms: 400, r_ms: 200, reads: vec![4096], sched: vec![] });
+        v.push(Case { scenario: Scenario::SlowChain { delay_ms: 80 }, t_ms: 300, r_ms: 5000, reads: vec![4096], sched: vec![], tunnel: false });
+        v.push(Case { scenario: Scenario::SlowChain { delay_ms: 120 }, t_ms: 400, r_ms: 200, reads: vec![4096], sched: vec![], tunnel: false });
+        // the same stalls inside a CONNECT tunnel (TLS between the client and the stalling origin)
+        for p in [StallPoint::BeforeReply, StallPoint::InHeader, StallPoint::AfterHead, StallPoint::InChunkData, StallPoint::BetweenChunks, StallPoint::InLengthBody, StallPoint::InCloseBody] {
+            v.push(Case { scenario: Scenario::Stall { point: p, drip_ms: 0 }, t_ms: 300, r_ms: 5000, reads: vec![4096], sched: vec![], tunnel: true });
+            v.push(Case { scenario: Scenario::Stall { point: p, drip_ms: 25 }, t_ms: 350, r_ms: 150, reads: vec![64], sched: vec![], tunnel: true });
+        }
+        for framing in 0..3u8 {
+            v.push(Case { scenario: Scenario::Complete { framing, payload: 300, extra_reads: vec![(10, 0), (10, 450)] }, t_ms: 350, r_ms: 5000, reads: vec![4096], sched: vec![], tunnel: true });
+        }
         // schedule perturbation at every labelled point, for a stalled and for a finished close-delimited response
         for l in 0..LABELS.len() as u8 {
-            v.push(Case { scenario: Scenario::Stall { point: StallPoint::InCloseBody, drip_ms: 0 }, t_ms: 200, r_ms: 5000, reads: vec![4096], sched: vec![(l, 150)] });
-            v.push(Case { scenario: Scenario::Stall { point: StallPoint::AfterHead, drip_ms: 0 }, t_ms: 200, r_ms: 5000, reads: vec![4096], sched: vec![(l, 150)] });
-            v.push(Case { scenario: Scenario::Complete { framing: 2, payload: 100, extra_reads: vec![(10, 0), (10, 300)] }, t_ms: 250, r_ms: 5000, reads: vec![4096], sched: vec![(l, 60)] });
+            v.push(Case { scenario: Scenario::Stall { point: StallPoint::InCloseBody, drip_ms: 0 }, t_ms: 200, r_ms: 5000, reads: vec![4096], sched: vec![(l, 150)], tunnel: false });
+            v.push(Case { scenario: Scenario::Stall { point: StallPoint::AfterHead, drip_ms: 0 }, t_ms: 200, r_ms: 5000, reads: vec![4096], sched: vec![(l, 150)], tunnel: false });
+            v.push(Case { scenario: Scenario::Complete { framing: 2, payload: 100, extra_reads: vec![(10, 0), (10, 300)] }, t_ms: 250, r_ms: 5000, reads: vec![4096], sched: vec![(l, 60)], tunnel: false });
         }
         Some(Box::new(v.into_iter().enumerate().filter(move |(i, _)| i % nworkers == worker).map(|(_, c)| c)))
     }
@@ -391,8 +408,9 @@ labelled points of the watchdog / reader (verif-hooks H3). Oracle S1-S4. non-tri
             proptest::collection::vec(prop_oneof![Just(1u16), 2u16..200, Just(4096u16), Just(65535u16)], 1..4),
             prop_oneof![3 => Just(vec![]), 1 => proptest::collection::vec((0u8..LABELS.len() as u8, 20u8..200), 1..3)],
             prop::bool::weighted(0.15),
+            prop::bool::weighted(0.25),
         )
-            .prop_map(|(scenario, t_ms, r_ms, reads, sched, no_t)| {
+            .prop_map(|(scenario, t_ms, r_ms, reads, sched, no_t, tunnel)| {
                 let mut t_ms = t_ms;
                 // only the read timeout: a silent stall (not an upload, not dripping) must end by R
                 if no_t {
@@ -405,7 +423,9 @@ labelled points of the watchdog / reader (verif-hooks H3). Oracle S1-S4. non-tri
                 let r_ms = if t_ms == 0 { r_ms.min(200) } else { r_ms };
                 // the schedule perturbation is meaningful for the schedule-independent halves only (see check)
                 let sched = if matches!(scenario, Scenario::SlowChain { .. }) { vec![] } else { sched };
-                Case { scenario, t_ms, r_ms, reads, sched }
+                // the TLS handshake of the tunnel eats into a short overall timeout: give tunnelled cases a little more
+                let t_ms = if tunnel && t_ms > 0 { t_ms.max(250) } else { t_ms };
+                Case { scenario, t_ms, r_ms, reads, sched, tunnel }
             })
             .boxed()
     }
@@ -520,6 +540,7 @@ labelled points of the watchdog / reader (verif-hooks H3). Oracle S1-S4. non-tri
                 timing_fail = timing_fail.or(Some(Outcome::fail("C13:resources-not-released", format!("{l}; {describe}"))));
             }
             ctx.label_if(!case.sched.is_empty(), "schedule-perturbed");
+            ctx.label_if(case.tunnel, "route:tunnel");
             match timing_fail {
                 None => return Outcome::Pass,
                 Some(f) => {
